@@ -64,6 +64,13 @@ def run(tier, seed):
                                  'kind': 'bounded native, exhaustive over the shipped library: each declared string / flag changed in place'})
             if badf:
                 pack.violation(name, {'bounded': True, 'inputs': badf, 'native_cmd': 'contracts/bounded_md5.py'})
+        name = 'C02/andes/core/model/model.py:Model.refresh_inputs_arg/bounded:every-argument-list-entry-is-the-object-filed-under-its-name(live-time,variables,flags)'
+        r = native_guard(pack, name, C02_binding.replay_inputs_arg)
+        if r is not None:
+            pack.bounded.append({'function': 'Model.refresh_inputs / refresh_inputs_arg (all models of two stock cases after TDS.init)', 'entries': r.get('tried', 0),
+                                 'counted_as_proved': False, 'kind': 'bounded native: object identity of every argument with the name table'})
+            if r.get('confirmed'):
+                pack.violation(name, {'bounded': True, 'inputs': r.get('inputs'), 'observed': r.get('observed'), 'native_cmd': r.get('native_cmd')})
         from contracts import bounded_binding
         name = 'C02/andes/system.py:System._load_calls;_expand_pycode/bounded:every-calls-slot-holds-the-object-of-the-model\'s-own-generated-module-named-for-it'
         r = native_guard(pack, name, bounded_binding.run)
